@@ -28,8 +28,11 @@ def canon_view(v):
     return [d[k] for k in sorted(d)]
 
 
+DEFAULT_MAX_PROPOSALS = 10   # pledge.DefaultConfig.MaxProposals; a script's max 0 means "the default"
+
+
 def pmax(x):
-    return x if x and x > 0 else 10
+    return x if x and x > 0 else DEFAULT_MAX_PROPOSALS
 
 
 def c_ev(e):
@@ -179,7 +182,7 @@ def gen_case(rng, guarded=True):
     for a in members:
         st = stale if rng.random() < 0.5 else 0
         ms.append({"addr": a, "ck": ck if rng.random() < 0.97 else ck + 1,
-                   "max": rng.choice([1, 2, 3, 3, 4, 4, 6, 10]),
+                   "max": rng.choice([0, 1, 2, 3, 3, 4, 4, 6, 10]),   # 0 = the package default (10)
                    "view": mk_view(rng, members, [], st, statey)})
     ops = []
     joined = []
@@ -207,7 +210,7 @@ def gen_case(rng, guarded=True):
                     atts.append({"via": via, "how": how, "rounds": rounds})
                 if rng.random() < 0.02:
                     atts = []
-                pls.append({"p": p, "max": rng.choice([1, 2, 3, 4, 10]), "attempts": atts})
+                pls.append({"p": p, "max": rng.choice([0, 1, 2, 3, 4, 10]), "attempts": atts})
                 if rng.random() < 0.02:
                     pls.append(json.loads(json.dumps(pls[-1])))     # duplicate pledge id (malformed)
             ops.append({"op": "par", "pledges": pls})
@@ -493,7 +496,8 @@ LEVEL_TEXT = ("Machine-checked Coq theorems over an executable LTS copy of respo
               "guarantee (C11_quorum_intersection_*). The real pledge package is driven on every run through a "
               "fault-injecting transport; its linearised event log must be accepted event by event by the model "
               "(verdicts, proposed keys, quorum sizes and membership, responses) and is judged by a monitor stating the "
-              "property.")
+              "property; the monitor is proved sound against the model (C11_monitor_sound: on an accepted log its only "
+              "possible objection is the signature of the known finding; none under the intersection guard).")
 LEVEL_NOTE = ("PARTIAL: the unrestricted uniqueness statement is FALSE for the code as it is — with a coordinator whose "
               "view is stale by two or more members two majority quorums can be disjoint and both pledges are handed "
               "the same key; reproduced on the real package on every run (F6, known finding), refuted in Coq "
